@@ -65,7 +65,7 @@ def run(ctx):
         run.error("C09.R1: only %d decoder entry points found (floor %d)" % (len(ents), T.FLOOR_ENTRIES))
     if len(fns) < T.FLOOR_FNS:
         run.error("C09.R1: only %d functions in decoder scope (floor %d)" % (len(fns), T.FLOOR_FNS))
-    sites = panics.all_sites(fns)
+    sites = panics.all_sites(fns, ctx.db)
     counts = {"discharged": 0, "allowed": 0, "reported": 0}
     used = {}
     for s in sorted(sites, key=lambda s: (s.fn.id, s.sp)):
@@ -78,6 +78,10 @@ def run(ctx):
             run.instance(R1, item, held=True)
             continue
         reason = T.allowed(fid, what)
+        gd = T.ALLOW_GUARDS.get((fid, what))
+        if reason and gd and not panics.dominated_by_cmp(s.fn, s.b, gd[0], gd[1], gd[2]):
+            reason = None
+            item["allow_list_guard_missing"] = "%s %s %s no longer dominates the site" % gd
         if reason:
             used[(fid, what)] = used.get((fid, what), 0) + 1
             if used[(fid, what)] > T.ALLOW_COUNTS.get((fid, what), 0):
